@@ -37,7 +37,7 @@ def step (cfg : Cfg) (k : K) : Ev → K × List Act
       if checkFails cfg k t then (k, [.recycle])
       else ({ k with lastId := k.nextId, nextId := k.nextId + 1 }, [.ping k.nextId])
   | .pong t => ({ k with lastPong := t }, [])
-  | .recovered _ => ({ k with lastId := 0, nextId := 1 }, [])     -- fresh connection: ids restart, bookkeeping cleared
+  | .recovered t => ({ k with lastId := 0, lastPong := t, nextId := 1 }, [])   -- fresh connection: ids restart, bookkeeping cleared, the pong clock restarts
 
 def runK (cfg : Cfg) : K → List Ev → K × List Act
   | k, [] => (k, [])
@@ -51,7 +51,7 @@ def runK (cfg : Cfg) : K → List Ev → K × List Act
 inductive Healthy (cfg : Cfg) : Nat → List Ev → Prop      -- first argument: time of the last pong
   | nil {p} : Healthy cfg p []
   | round {p t t' es} : t ≤ p + cfg.interval → t ≤ t' → Healthy cfg t' es → Healthy cfg p (.tick t :: .pong t' :: es)
-  | recovered {p t es} : Healthy cfg p es → Healthy cfg p (.recovered t :: es)
+  | recovered {p t es} : Healthy cfg t es → Healthy cfg p (.recovered t :: es)
 
 /-- C15 `no_false_positive`: with timeout ≥ interval a peer that answers every heartbeat is never
     recycled by keepalive — whatever recoveries happen in between -/
@@ -70,7 +70,7 @@ theorem no_false_positive (cfg : Cfg) (hc : cfg.interval ≤ cfg.timeout) (p : N
   | @recovered p t es' _ ih =>
     intro k hk
     simp only [runK, step]
-    have := ih { k with lastId := 0, nextId := 1 } hk
+    have := ih { k with lastId := 0, lastPong := t, nextId := 1 } rfl
     simpa using this
 
 /-- C15 `detects_dead`: once a ping is outstanding and no pong arrives any more, the first tick later
@@ -82,6 +82,45 @@ theorem detects_dead (cfg : Cfg) (k : K) (t : Nat) (hid : k.lastId ≠ 0) (ht : 
     simp only [checkFails, Bool.and_eq_true, bne_iff_ne, ne_eq, decide_eq_true_eq]
     exact ⟨hid, by omega⟩
   simp [step, this]
+
+/-- the check fails exactly when a ping is outstanding and the last pong (or the (re)start of the connection) is more than the
+    timeout ago — so ANY peer whose pongs keep arriving at most `timeout` apart is never recycled, whatever its latency -/
+theorem check_fails_iff (cfg : Cfg) (k : K) (t : Nat) :
+    checkFails cfg k t = true ↔ (k.lastId ≠ 0 ∧ k.lastPong + cfg.timeout < t) := by
+  simp only [checkFails, Bool.and_eq_true, bne_iff_ne, ne_eq, decide_eq_true_eq]
+  constructor
+  · intro ⟨h1, h2⟩; exact ⟨h1, by omega⟩
+  · intro ⟨h1, h2⟩; exact ⟨h1, by omega⟩
+
+/-- after EVERY recovery the clock restarts: no tick within `timeout` of the re-dial can recycle the fresh connection,
+    however slowly its first pong arrives (defect D21 of the tree before the repair: the stale clock of the dead connection
+    was kept, so a peer answering slower than one interval was declared dead at the second tick, again and again) -/
+theorem after_recovery_grace (cfg : Cfg) (k : K) (r t : Nat) (ht : t ≤ r + cfg.timeout) (acts : List Ev)
+    (hq : ∀ e ∈ acts, ∃ u, e = .tick u ∧ u ≤ r + cfg.timeout) :
+    Act.recycle ∉ (runK cfg (step cfg k (.recovered r)).1 (acts ++ [.tick t])).2 := by
+  have key : ∀ (acts : List Ev) (k' : K), k'.lastPong = r →
+      (∀ e ∈ acts, ∃ u, e = .tick u ∧ u ≤ r + cfg.timeout) →
+      Act.recycle ∉ (runK cfg k' (acts ++ [.tick t])).2 := by
+    intro acts
+    induction acts with
+    | nil =>
+      intro k' hk _
+      have : checkFails cfg k' t = false := by
+        cases h : checkFails cfg k' t with
+        | false => rfl
+        | true => have := (check_fails_iff cfg k' t).mp h; omega
+      simp [runK, step, this]
+    | cons e es ih =>
+      intro k' hk hq
+      obtain ⟨u, rfl, hu⟩ := hq e (by simp)
+      have : checkFails cfg k' u = false := by
+        cases h : checkFails cfg k' u with
+        | false => rfl
+        | true => have := (check_fails_iff cfg k' u).mp h; omega
+      simp only [List.cons_append, runK, step, this, Bool.false_eq_true, ↓reduceIte]
+      have := ih { k' with lastId := k'.nextId, nextId := k'.nextId + 1 } hk (fun e he => hq e (by simp [he]))
+      simpa using this
+  exact key acts _ rfl hq
 
 /-- every ping carries a fresh id (ids strictly increase between recoveries) -/
 theorem ping_fresh (cfg : Cfg) (k : K) (t : Nat) (h : checkFails cfg k t = false) :
